@@ -58,6 +58,16 @@ type timedSpec struct {
 	after       []timedCmd
 	allow       bool
 	interactive bool // the task is declared interactive (its commands are attached to the standard input)
+	// vcmds != nil: the task has len(vcmds) variations (V=0,1,...); the command texts are the same in every
+	// variation, what command j does in variation v is vcmds[v][j] (it looks at $V). cmds is then vcmds[0].
+	vcmds [][]timedCmd
+}
+
+func (s timedSpec) variations() [][]timedCmd {
+	if s.vcmds != nil {
+		return s.vcmds
+	}
+	return [][]timedCmd{s.cmds}
 }
 
 func (s timedSpec) line() string {
@@ -77,18 +87,30 @@ func (s timedSpec) line() string {
 		return strings.Join(r, ","), strings.Join(d, ",")
 	}
 	b, bd := f(s.before)
-	c, cd := f(s.cmds)
+	var flat []timedCmd
+	for _, v := range s.variations() {
+		flat = append(flat, v...)
+	}
+	c, cd := f(flat)
 	a, ad := f(s.after)
+	vars := "-"
+	if s.vcmds != nil {
+		vars = fmt.Sprint(len(s.vcmds))
+	}
 	al := 0
 	if s.allow {
 		al = 1
 	}
-	return fmt.Sprintf("timed T=%d cond=- cdur=0 before=%s bdur=%s n=%d vars=- res=%s dur=%s after=%s adur=%s allow=%d init=0", s.T, b, bd, len(s.cmds), c, cd, a, ad, al)
+	return fmt.Sprintf("timed T=%d cond=- cdur=0 before=%s bdur=%s n=%d vars=%s res=%s dur=%s after=%s adur=%s allow=%d init=0", s.T, b, bd, len(s.cmds), vars, c, cd, a, ad, al)
 }
 
 func (s timedSpec) kinds() string {
 	var k []string
-	for _, c := range append(append(append([]timedCmd{}, s.before...), s.cmds...), s.after...) {
+	all := append([]timedCmd{}, s.before...)
+	for _, v := range s.variations() {
+		all = append(all, v...)
+	}
+	for _, c := range append(all, s.after...) {
 		k = append(k, c.kind)
 	}
 	return strings.Join(k, ",")
@@ -109,8 +131,23 @@ func runTimedSpec(s timedSpec) (obs runObs, elapsed time.Duration, err error) {
 	for i, c := range s.before {
 		t.Before = append(t.Before, c.shell(trace, fmt.Sprintf("b%d", i), s.T))
 	}
-	for j, c := range s.cmds {
-		t.Commands = append(t.Commands, c.shell(trace, fmt.Sprintf("m0.%d", j), s.T))
+	if s.vcmds == nil {
+		for j, c := range s.cmds {
+			t.Commands = append(t.Commands, c.shell(trace, fmt.Sprintf("m0.%d", j), s.T))
+		}
+	} else {
+		for v := range s.vcmds {
+			t.Variations = append(t.Variations, map[string]string{"V": fmt.Sprint(v)})
+		}
+		for j := range s.cmds {
+			var sb strings.Builder
+			sb.WriteString("case \"$V\" in ")
+			for v := range s.vcmds {
+				fmt.Fprintf(&sb, "%d) %s;; ", v, s.vcmds[v][j].shell(trace, fmt.Sprintf("m%d.%d", v, j), s.T))
+			}
+			sb.WriteString("esac")
+			t.Commands = append(t.Commands, sb.String())
+		}
 	}
 	for i, c := range s.after {
 		t.After = append(t.After, c.shell(trace, fmt.Sprintf("a%d", i), s.T))
@@ -177,17 +214,19 @@ func timedCase(col *Collector, s timedSpec, tag string) {
 			stopped, wantErr = true, true
 		}
 	}
-	for j, c := range s.cmds {
-		if stopped {
-			break
-		}
-		want = append(want, fmt.Sprintf("m0.%d", j))
-		account(c)
-		if c.kind == "grandchild" {
-			hasGrandchild = true
-		}
-		if c.overruns() || (c.exit != 0 && !s.allow) {
-			stopped, wantErr, wantErrored = true, true, true
+	for v, vc := range s.variations() {
+		for j, c := range vc {
+			if stopped {
+				break
+			}
+			want = append(want, fmt.Sprintf("m%d.%d", v, j))
+			account(c)
+			if c.kind == "grandchild" {
+				hasGrandchild = true
+			}
+			if c.overruns() || (c.exit != 0 && !s.allow) {
+				stopped, wantErr, wantErrored = true, true, true
+			}
 		}
 	}
 	if !stopped {
@@ -244,6 +283,16 @@ func runC13(col *Collector, tier string, seed int64) {
 	for _, kind := range []string{"sleep", "loop", "immune"} {
 		add(timedSpec{T: Ts[rng.Intn(len(Ts))], cmds: []timedCmd{{"quick", 3}, {kind, 0}, q}, allow: true, after: []timedCmd{q}}, "allowed-failure-then-overrun")
 		add(timedSpec{T: Ts[rng.Intn(len(Ts))], cmds: []timedCmd{q, {"quick", 200}, q, {kind, 0}, q}, allow: true}, "allowed-failure-then-overrun")
+	}
+	// variations: the timeout bounds the commands of EVERY variation - the overrun happens in the second or third
+	for _, kind := range []string{"sleep", "loop"} {
+		for _, allow := range []bool{false, true} {
+			v0 := []timedCmd{q, q}
+			v1 := []timedCmd{q, {kind, 0}}
+			add(timedSpec{T: Ts[rng.Intn(len(Ts))], cmds: v0, vcmds: [][]timedCmd{v0, v1}, allow: allow, after: []timedCmd{q}}, "variation")
+		}
+		v0 := []timedCmd{{"quick", 0}, {"slow", 0}}
+		add(timedSpec{T: Ts[rng.Intn(len(Ts))], cmds: v0, vcmds: [][]timedCmd{v0, {q, q}, {{kind, 0}, q}}}, "variation")
 	}
 	// hooks
 	for _, kind := range []string{"sleep", "loop"} {
